@@ -130,6 +130,18 @@ def randBytes : Nat → UInt32 → List UInt8 × UInt32
     let (bs, s2) := randBytes n s1
     (s1.toUInt8 :: bs, s2)
 
+/-- Addresses whose content the chip may change on its own or as a side effect of an access
+    (datasheet access column `r`, `rc`, `wt`; FIFO pointer).  Written from the datasheet, not from
+    the driver's never-cache list, which is the thing under test. -/
+def volatileLora : List Nat :=
+  [0x0d, 0x10, 0x12, 0x13, 0x14, 0x15, 0x16, 0x17, 0x18, 0x19, 0x1a, 0x1b, 0x1c, 0x25, 0x28, 0x29, 0x2a, 0x2c]
+def volatileFsk : List Nat :=
+  [0x0d, 0x11, 0x1a, 0x1b, 0x1c, 0x1d, 0x1e, 0x24, 0x36, 0x3b, 0x3c, 0x3e, 0x3f]
+def volatileShared : List Nat := [0x00, 0x01, 0x5b]
+
+/-- some page may change the content behind address `a` without a host write -/
+def Vol (a : Nat) : Bool := volatileLora.contains a || volatileFsk.contains a || volatileShared.contains a
+
 namespace Env
 def apply (c : Chip) : Env → Chip
   | rxByte b =>
@@ -162,7 +174,11 @@ def apply (c : Chip) : Env → Chip
   | loraFlags m => { c with lora := c.lora.wr 0x12 (c.lora.rd 0x12 ||| m) }
   | chip page a v =>
     let a := a % 128
-    if page = 's' then { c with shared := c.shared.wr a v }
+    if page = 's' then
+      -- the chip never changes LongRangeMode / AccessSharedReg on its own: a change of
+      -- RegOpMode by the chip affects the mode bits only
+      if a = 1 then { c with shared := c.shared.wr 1 ((c.shared.rd 1 &&& 0xc0) ||| (v &&& 0x3f)) }
+      else { c with shared := c.shared.wr a v }
     else if page = 'l' then { c with lora := c.lora.wr a v }
     else { c with fsk := c.fsk.wr a v }
   | buf a v => { c with buf := c.buf.wr a.toNat v }
@@ -172,6 +188,16 @@ def apply (c : Chip) : Env → Chip
     let (f, g) := randBytes 128 g
     let (b, _) := randBytes 256 g
     { c with shared := Mem.wr s 0x42 0x12, lora := l, fsk := f, buf := b }
+
+/-- events the radio side can produce while a session is running (`chipRand` and arbitrary
+    register pokes only describe initial states) -/
+def Admissible : Env → Bool
+  | chip page a v =>
+    let a := a % 128
+    (page = 's' && volatileShared.contains a) || (page = 'l' && volatileLora.contains a && Chip.inPage a)
+      || (page = 'f' && volatileFsk.contains a && Chip.inPage a)
+  | chipRand _ => false
+  | _ => true
 end Env
 
 end Sx
